@@ -15,6 +15,9 @@ ops
   hsdup <src> <relay|flip|direct> [X|B]                        -> digest difference at A: after the relayed tunnel X-A
       completed, the relay hands A the stage-0 handshake packet of X once more in a fresh relay frame
       (byte-identical, or with one bit flipped)
+  xdirect <own|other> <allow|deny>                             -> `tun=<n> remote=<E|relay|elsewhere|none> lrelay=<0|1> xr=<0|1>`: A's
+      hostinfo for X is given the direct remote E, an authentic packet of X arrives through the relay, the remote and
+      the learned addresses of X are read back (then the tunnel is made relay-only again)
   reply                                                        -> digest difference at A when its tun emits a packet for X
 answer: `tun=<n> out=<t/s>node,…> del=<peers> roam=<peers> in=<peers> win=<peers> rs=<peers> lh=<0|1> pend=<0|1> used=<n> ru=<names> seen=<0|1>`
         (`ru`: the relay indexes marked used, by name: `r<peer>` a relay index on the tunnel with <peer>,
@@ -258,6 +261,9 @@ def evalPkt (s : St) (kind src scope : String) (mutArgs : List String) (impl : S
       let outerAuth := l1.authOK
       let innerAuth := match innerPkt with | some (.mk _ l2 _) => l2.authOK | none => false
       let unencrypted := oh.type == header_Handshake || oh.type == header_RecvError
+      -- the outer level reached `handleOutsideRelayPacket` (not dropped before the lookup, e.g. a source inside our own networks)
+      let carried := effs.any (fun e => match e with | .relayUsed _ => true | _ => false)
+      let carrierOnlyVerdict := fun (impl : String) (ia : Bool) => if carried then carrierOnlyVerdict impl ia else "ok"
       let verdict :=
         if unencrypted then "ok"
         else if !outerAuth then noEffectVerdict impl true
@@ -375,6 +381,26 @@ def step (s : St) (args : List String) (impl : String) : St × Out :=
     (s', { model := model, verdict := relayOnlyVerdict impl true,
            tag := if !reached then "hsdup:not-reached" else if fresh then "hsdup:reestablish-over-relay"
                   else if mode == "relay" then "hsdup:already-seen" else "hsdup:garbled" })
+  | ["xdirect", _, allow] =>
+    if !s.ready then (s, badOp) else
+    if !s.live.contains 3 && !s.xGhost then (s, { model := "no-tunnel", tag := "triv:xdirect-no-tunnel" }) else
+    -- A's hostinfo for X holds the direct remote E; an AUTHENTIC data packet of X arrives through the relay
+    -- (`ViaSender{UdpAddr: R's address, IsRelayed}`): `Nebula.ViaRemote.handleHostRoaming` keeps the remote
+    -- (`Props.C15.relayed_via_never_roams`), nothing is learned.  (X's own packets still carry the old index
+    -- after a re-created tunnel: then nothing is delivered.)
+    let hostR : Nebula.ViaRemote.HostR := { remote := some (srcAddr "other" 3), lastRoamRemote := none }
+    let via : Nebula.ViaRemote.Via := { udp := srcAddr "own" 2, isRelayed := true }
+    let kept := (Nebula.ViaRemote.handleHostRoaming (allow != "deny") false hostR via).remote == hostR.remote
+    let tun := if s.xGhost then 0 else 1
+    let model := s!"tun={tun} remote={if kept then "E" else "relay"} lrelay=0 xr=0"
+    let toks := impl.splitOn " "
+    let get (k : String) : String := ((toks.find? (·.startsWith (k ++ "="))).getD (k ++ "=?")).drop (k.length + 1) |>.toString
+    let verdict :=
+      if get "remote" != "E" then "bad relayed-packet-changed-remote"
+      else if get "lrelay" != "0" then "bad relayed-via-recorded-as-remote learned"
+      else if get "xr" != "0" then "bad relayed-via-recorded-as-remote"
+      else "ok"
+    (s, { model := model, verdict := verdict, tag := s!"xdirect:{if tun == 1 then "delivered" else "not-delivered"}" })
   | ["reply"] =>
     if !s.ready then (s, badOp) else
     if !s.live.contains 3 && !s.xGhost then
